@@ -318,10 +318,10 @@ func (p *constParser) factor() (int, bool) {
 // memOperand parses disp(BASE)(IDX*scale).
 type mem struct {
 	scaleIsSize bool
-	disp       int
-	base, idx  string
-	scale      int
-	ok, framed bool
+	disp        int
+	base, idx   string
+	scale       int
+	ok, framed  bool
 }
 
 var memRe = regexp.MustCompile(`^([^()]*)\(\s*([A-Z][A-Z0-9]*)\s*\)(?:\(\s*([A-Z][A-Z0-9]*)\s*\*\s*([0-9A-Za-z_*]+)\s*\))?$`)
@@ -398,6 +398,7 @@ func Run() *core.Result {
 			res.Count("text_functions", 1)
 			res.Count("instructions", len(fn.ins))
 			checkWindows(res, fn)
+			checkTails(res, fn)
 			checkUnits(res, fn)
 		}
 	}
@@ -533,6 +534,226 @@ func checkWindows(res *core.Result, fn *textFn) {
 			}
 		}
 	}
+}
+
+// elemSize is the element size of the package a kernel lives in.
+func elemSize(file string) int {
+	switch filepath.Base(filepath.Dir(file)) {
+	case "f64", "c64":
+		return 8
+	case "f32":
+		return 4
+	case "c128":
+		return 16
+	}
+	return 0
+}
+
+// checkTails: ASM.tail. Outside the loops, a straight-line block (label to
+// next label / jump / RET) that addresses memory through a register some
+// loop of the function uses as its induction register owns only the
+// elements it advances over — or, if it does not advance the register (the
+// last-element tail), one element. A packed load there (MOVUPS for MOVSD)
+// reads past the end of the slice on odd lengths.
+func checkTails(res *core.Result, fn *textFn) {
+	es := elemSize(fn.file)
+	if es == 0 {
+		return
+	}
+	inLoop := make([]bool, len(fn.ins))
+	induction := map[string]bool{}
+	for i, in := range fn.ins {
+		if !jumps[in.op] || len(in.args) != 1 {
+			continue
+		}
+		start, ok := fn.label[in.args[0]]
+		if !ok || start > i {
+			continue
+		}
+		for k := start; k <= i; k++ {
+			inLoop[k] = true
+		}
+		for _, b := range fn.ins[start:i] {
+			if len(b.args) == 0 {
+				continue
+			}
+			dst := strings.TrimSpace(b.args[len(b.args)-1])
+			switch b.op {
+			case "ADDQ", "SUBQ":
+				if strings.HasPrefix(strings.TrimSpace(b.args[0]), "$") {
+					induction[dst] = true
+				}
+			case "INCQ", "DECQ":
+				induction[dst] = true
+			case "LEAQ":
+				if m := parseMem(b.args[0]); m.ok && m.idx == "" && m.base == dst {
+					induction[dst] = true
+				}
+			}
+		}
+	}
+	isLabel := map[int]bool{}
+	for _, at := range fn.label {
+		isLabel[at] = true
+	}
+	i := 0
+	for i < len(fn.ins) {
+		if inLoop[i] {
+			i++
+			continue
+		}
+		// block [i, j)
+		j := i
+		for j < len(fn.ins) && !inLoop[j] {
+			if j > i && isLabel[j] {
+				break
+			}
+			j++
+			if op := fn.ins[j-1].op; jumps[op] || op == "RET" {
+				break
+			}
+		}
+		block := fn.ins[i:j]
+		i = j
+		step := map[string]int{}
+		other := map[string]bool{}
+		for _, b := range block {
+			if len(b.args) == 0 {
+				continue
+			}
+			dst := strings.TrimSpace(b.args[len(b.args)-1])
+			switch b.op {
+			case "ADDQ", "SUBQ":
+				if c, ok := evalConst(b.args[0]); ok && strings.HasPrefix(strings.TrimSpace(b.args[0]), "$") {
+					if b.op == "SUBQ" {
+						c = -c
+					}
+					step[dst] += c
+					continue
+				}
+				other[dst] = true
+			case "INCQ":
+				step[dst]++
+			case "DECQ":
+				step[dst]--
+			case "LEAQ":
+				m := parseMem(b.args[0])
+				if m.ok && m.idx == "" && m.base == dst {
+					step[dst] += m.disp
+					continue
+				}
+				other[dst] = true
+			case "CMPQ", "TESTQ", "UCOMISD", "COMISD", "PREFETCHNTA", "PREFETCHT0":
+			default:
+				if w := width(b.op, b.args); w == 0 {
+					if regexp.MustCompile(`^(R[0-9]+|[ABCD]X|[SD]I|BP)$`).MatchString(dst) {
+						other[dst] = true
+					}
+				}
+			}
+		}
+		sofar := map[string]int{}
+		for _, b := range block {
+			switch b.op {
+			case "ADDQ", "SUBQ":
+				if len(b.args) == 2 && strings.HasPrefix(strings.TrimSpace(b.args[0]), "$") {
+					if c, ok := evalConst(b.args[0]); ok {
+						if b.op == "SUBQ" {
+							c = -c
+						}
+						sofar[strings.TrimSpace(b.args[1])] += c
+					}
+				}
+				continue
+			case "INCQ":
+				sofar[strings.TrimSpace(b.args[0])]++
+				continue
+			case "DECQ":
+				sofar[strings.TrimSpace(b.args[0])]--
+				continue
+			case "LEAQ":
+				if len(b.args) == 2 {
+					m := parseMem(b.args[0])
+					if m.ok && m.idx == "" && m.base == strings.TrimSpace(b.args[1]) {
+						sofar[m.base] += m.disp
+					}
+				}
+				continue
+			}
+			w := width(b.op, b.args)
+			if w == 0 {
+				continue
+			}
+			for _, a := range b.args {
+				m := parseMem(a)
+				if !m.ok {
+					continue
+				}
+				var ind string
+				var total, off int
+				switch {
+				case m.idx != "" && induction[m.idx] && !other[m.idx] && step[m.idx] >= 0 && step[m.base] == 0 && !other[m.base]:
+					ind = m.idx
+					total = step[m.idx] * m.scale
+					off = m.disp + sofar[m.idx]*m.scale
+				case m.idx == "" && induction[m.base] && !other[m.base] && step[m.base] >= 0:
+					ind = m.base
+					total = step[m.base]
+					off = m.disp + sofar[m.base]
+				default:
+					continue
+				}
+				if total == 0 {
+					// not advanced here: the last-element tail only if the
+					// register is never written again on any path from here
+					if writtenLater(fn, j, ind) {
+						continue
+					}
+					total = es
+				}
+				res.Obligations++
+				res.Count("tail_memory_accesses", 1)
+				if off < 0 || off+w > total {
+					res.Add(core.Finding{Rule: "ASM.tail",
+						Key: fmt.Sprintf("ASM.tail|%s.%s|%s %s", core.RelPkg(filepath.Dir(rel(fn.file))), fn.name, b.op, a),
+						Pos: fmt.Sprintf("%s:%d", rel(b.file), b.line), Func: fn.name,
+						Msg: fmt.Sprintf("outside the loops of %s the access %s %s covers bytes [%d,%d) relative to %s in a block that owns only %d bytes (it advances the register by that much, or handles the last element): it reaches past the elements that remain",
+							fn.name, b.op, a, off, off+w, ind, total)})
+				}
+			}
+		}
+	}
+}
+
+// writtenLater reports whether reg is the destination of any instruction
+// reachable from instruction index from.
+func writtenLater(fn *textFn, from int, reg string) bool {
+	seen := map[int]bool{}
+	work := []int{from}
+	for len(work) > 0 {
+		k := work[len(work)-1]
+		work = work[:len(work)-1]
+		for k < len(fn.ins) && !seen[k] {
+			seen[k] = true
+			in := fn.ins[k]
+			if len(in.args) > 0 && in.op != "CMPQ" && in.op != "TESTQ" && strings.TrimSpace(in.args[len(in.args)-1]) == reg {
+				return true
+			}
+			if in.op == "RET" {
+				break
+			}
+			if jumps[in.op] && len(in.args) == 1 {
+				if t, ok := fn.label[in.args[0]]; ok {
+					work = append(work, t)
+				}
+				if in.op == "JMP" {
+					break
+				}
+			}
+			k++
+		}
+	}
+	return false
 }
 
 // checkUnits: bytes vs elements.
